@@ -71,7 +71,9 @@ struct World {
 
 fn new_clock(slot: u64) -> MockClock {
     MockClock(Arc::new(Mutex::new(ClockState {
-        now: ts(T0 + 1_000_000 * slot as i128), drift: 1e-6 * slot as f64, steer: 0.0, max: 1e-4 * (slot as f64 + 1.0), calls: vec![],
+        now: ts(T0 + 1_000_000 * slot as i128), drift: 1e-6 * slot as f64, steer: 0.0,
+        // even slots get a tight frequency limit so that the controller's clamp saturates on them
+        max: if slot % 2 == 0 { 2e-5 } else { 1e-4 * (slot as f64 + 1.0) }, calls: vec![],
     })))
 }
 
